@@ -10,14 +10,15 @@ import (
 )
 
 // Value is one of:
-//   *Term            bool / integer / float (IEEE bits) / uintptr
-//   Ptr              pointer or unsafe.Pointer
-//   SliceV, StrV     slice and string headers with concrete len/cap
-//   *IfaceV          interface value (nil interface: T == nil)
-//   *StructV, *ArrayV  aggregate register values
-//   *FuncV           function value / closure (nil func: Fn == nil && B == nil)
-//   MapV, ChanV      handles
-//   TupleV           multiple results
+//
+//	*Term            bool / integer / float (IEEE bits) / uintptr
+//	Ptr              pointer or unsafe.Pointer
+//	SliceV, StrV     slice and string headers with concrete len/cap
+//	*IfaceV          interface value (nil interface: T == nil)
+//	*StructV, *ArrayV  aggregate register values
+//	*FuncV           function value / closure (nil func: Fn == nil && B == nil)
+//	MapV, ChanV      handles
+//	TupleV           multiple results
 type Value interface{}
 
 type Ptr struct {
@@ -99,14 +100,14 @@ func (m *MapObj) clone() *MapObj {
 // Base is the frozen state produced by package initialisation, shared by all
 // paths (objects and maps are cloned on first write).
 type Base struct {
-	objs    map[int]*Object
-	maps    map[int]*MapObj
-	boxes   []Value
-	globals map[*ssa.Global]int
-	strs    map[string]int
-	nextObj int
-	nextMap int
-	inited  map[*ssa.Package]bool
+	objs       map[int]*Object
+	maps       map[int]*MapObj
+	boxes      []Value
+	globals    map[*ssa.Global]int
+	strs       map[string]int
+	nextObj    int
+	nextMap    int
+	inited     map[*ssa.Package]bool
 	poisoned   map[int]string
 	onceDone   map[Ptr]bool
 	atomicVals map[Ptr]Value
